@@ -124,7 +124,8 @@ impl BuildOptimiser {
             kt_ratio,
             max_step_size: self.max_step_size,
             steps: self.steps,
-            inner_steps: u64::min(self.inner_steps, self.steps),
+            // An inner loop always has at least one step, zero requested steps means zero loops.
+            inner_steps: u64::max(1, u64::min(self.inner_steps, self.steps)),
             seed,
             convergence: self.convergence,
         }
